@@ -65,12 +65,14 @@ def decodeStep (a : UInt8) (rest : Bytes) : Char × Nat :=
             | d :: _ => if isCont d then (mk4 a b c d, 3) else (repl, 2)
   else (repl, 0)                                        -- 0xF5..0xFF: invalid start byte
 
+/-- `fuel` steps of the decoder (every step consumes at least one byte) -/
+def decodeAux : Nat → Bytes → Str
+  | 0, _ => []
+  | _, [] => []
+  | n + 1, a :: rest => (decodeStep a rest).1 :: decodeAux n (rest.drop (decodeStep a rest).2)
+
 /-- `decode_raw_line(line)` -/
-def decode : Bytes → Str
-  | [] => []
-  | a :: rest => (decodeStep a rest).1 :: decode (rest.drop (decodeStep a rest).2)
-termination_by bs => bs.length
-decreasing_by simp only [List.length_drop, List.length_cons]; omega
+def decode (bs : Bytes) : Str := decodeAux bs.length bs
 
 /-! ### line framing: `lines = inbuffer.split(b'\n'); inbuffer = lines.pop()` -/
 
